@@ -1,0 +1,78 @@
+//go:build verif
+
+package bits
+
+// Contracts for the deductive checks in /verif (read by /verif/govc; comment-only, no code).
+
+//@ import tmprotobits github.com/tendermint/tendermint/proto/tendermint/libs/bits
+
+// ---- C17: bit arrays arrive from peers inside consensus messages. wfBits is the representation invariant every
+// operation relies on to stay inside its element slice: n bits need exactly (n+63)/64 elements. It is an object invariant
+// (`relies`): established by NewBitArray, FromProto and every operation below, assumed at calls from other packages.
+//@ spec func wfBits(bA *BitArray) bool = bA.Bits >= 0 && len(bA.Elems) == (bA.Bits + 63) / 64
+
+// Whatever the wire says, the decoded bit array is well formed (a malformed one becomes the empty bit array).
+//@ func BitArray.FromProto
+//@   assigns bA.Bits, bA.Elems
+//@   requires fresh: bA != nil && bA.Bits == 0 && len(bA.Elems) == 0
+//@   ensures wf: wfBits(bA)
+//@   ensures kept: (protoBitArray != nil && protoBitArray.Bits >= 0 && len(protoBitArray.Elems) == (protoBitArray.Bits + 63) / 64) ==> (bA.Bits == protoBitArray.Bits && len(bA.Elems) == len(protoBitArray.Elems))
+
+//@ func NewBitArray
+//@   assigns nothing
+//@   ensures wf: result != nil ==> (wfBits(result) && result.Bits == bits && bits > 0)
+//@   ensures none: result == nil <==> bits <= 0
+
+// Indexing stays inside the element slice for every index a message can name (indices are validated non-negative).
+//@ func BitArray.getIndex
+//@   relies wf: wfBits(bA) && i >= 0
+//@   assigns nothing
+//@   checks bounds
+//@ func BitArray.setIndex
+//@   relies wf: wfBits(bA) && i >= 0
+//@   assigns elems(uint64)
+//@   checks bounds
+//@   ensures wf: wfBits(bA)
+//@   ensures inrange: result <==> i < bA.Bits
+
+//@ func BitArray.copy
+//@   relies wf: wfBits(bA)
+//@   assigns nothing
+//@   checks bounds
+//@   ensures wf: result != nil && wfBits(result) && result.Bits == bA.Bits && fresh(result)
+//@ func BitArray.copyBits
+//@   relies wf: bits >= 0
+//@   assigns nothing
+//@   checks bounds
+//@   ensures wf: result != nil && wfBits(result) && result.Bits == bits && fresh(result)
+
+// The binary operations tolerate operands of different sizes.
+//@ func BitArray.Or
+//@   relies wf: (bA != nil ==> wfBits(bA)) && (o != nil ==> wfBits(o))
+//@   checks bounds
+//@   ensures wf: result != nil ==> wfBits(result)
+//@   loop 1 invariant idx: 0 <= i && wfBits(c) && len(c.Elems) >= smaller && smaller <= len(o.Elems)
+//@ func BitArray.Sub
+//@   relies wf: (bA != nil ==> wfBits(bA)) && (o != nil ==> wfBits(o))
+//@   checks bounds
+//@   ensures wf: result != nil ==> (wfBits(result) && result.Bits == bA.Bits)
+//@   loop 1 invariant idx: 0 <= i && wfBits(c) && c.Bits == bA.Bits && len(c.Elems) >= smaller && smaller <= len(o.Elems)
+//@ func BitArray.and
+//@   relies wf: wfBits(bA) && wfBits(o)
+//@   checks bounds
+//@   ensures wf: result != nil && wfBits(result)
+//@   loop 1 invariant idx: 0 <= i && wfBits(c) && len(c.Elems) <= len(o.Elems)
+//@ func BitArray.not
+//@   relies wf: wfBits(bA)
+//@   checks bounds
+//@   ensures wf: result != nil && wfBits(result) && result.Bits == bA.Bits
+//@   loop 1 invariant idx: 0 <= i && wfBits(c) && c.Bits == bA.Bits
+
+// Picking a set bit needs at least one element, i.e. a non-empty bit array (NewBitArray never returns an empty one).
+//@ func BitArray.getTrueIndices
+//@   relies wf: wfBits(bA) && bA.Bits >= 1
+//@   assigns nothing
+//@   checks bounds
+//@   loop 1 invariant idx: 0 <= i && i <= numElems - 1 && numElems == len(bA.Elems)
+//@   loop 2 invariant t: true
+//@   loop 3 invariant t: true
